@@ -619,7 +619,7 @@ def gen_case(rng, idx):
     files = [t for t in tree if t[0] == "f"]
     case = {"idx": idx, "search": search, "replace": repl, "tree": tree, "state": [], "steps": []}
     fam = rng.choice(["replace_groups", "replace_groups", "plan", "plan", "plan_apply", "plan_apply", "rename", "rename", "replace", "replace", "search", "stale_tree",
-                      "stale_tree", "stale_plan", "stale_plan", "state", "state", "misc", "paths"])
+                      "stale_tree", "stale_redo", "stale_plan", "stale_plan", "state", "state", "misc", "paths"])
     case["family"] = fam
     steps = case["steps"]
     if fam == "replace_groups":
@@ -677,6 +677,31 @@ def gen_case(rng, idx):
             new = None
         steps.append({"mutate": "write", "file": f[1], "content": H(new) if new is not None else None, "how": how})
         steps.append({"argv": ["apply", "--no-auto-init"] + rng.choice([[], ["--output", "json"], ["--force-with-conflicts"]])})
+    elif fam == "stale_redo":
+        # the operation is applied and undone, a planned file is rewritten by hand (offsets past EOF, inside a multi-byte
+        # character, other text at the offsets), then the redo validates / applies the STORED plan (seed C16j)
+        steps.append({"argv": ["rename", "--no-auto-init", "-y", "--quiet", "--", search, repl]})
+        steps.append({"argv": ["undo", "latest"]})
+        f = rng.choice(files)
+        old = U(f[2])
+        how = rng.choice(["replace_multibyte", "replace_multibyte", "prefix_multibyte", "shift_euro", "truncate_half", "truncate_1", "delete"])
+        if how == "replace_multibyte":
+            new = ("日" * (len(old) // 3 + 2)).encode()[: max(len(old), 3) + rng.randint(0, 2)]
+            new = new[: len(new) - len(new) % 3] if rng.random() < 0.5 else new
+        elif how == "prefix_multibyte":
+            new = "é".encode() + old
+        elif how == "shift_euro":
+            k = rng.randint(0, max(0, len(old) - 1))
+            new = old[:k] + "€".encode() * rng.randint(1, 3) + old[k + rng.randint(0, 4):]
+        elif how == "truncate_half":
+            new = old[: len(old) // 2]
+        elif how == "truncate_1":
+            new = old[:1]
+        else:
+            new = None
+        steps.append({"mutate": "write", "file": f[1], "content": H(new) if new is not None else None, "how": how})
+        steps.append({"argv": ["redo", "latest"] + rng.choice([[], ["--quiet"]])})
+        steps.append({"argv": ["status"]})
     elif fam == "stale_plan":
         steps.append({"argv": ["plan", search, repl, "--no-auto-init", "--quiet"] if not search.startswith("-") else ["plan", "--no-auto-init", "--quiet", "--", search, repl]})
         steps.append({"mutate": "plan", "how": rng.choice(PLAN_MUTATIONS), "arg": rng.randint(0, 5)})
